@@ -84,11 +84,14 @@ ASSUMPTIONS = [
     'in __cinit__): clean rejection, only the default mode is tested',
     'gids, when valid, are unique per array',
     'StratifiedSFCNNPS builds its keys with a 32-bit shift by '
-    '1+3*ceil(log2(extent/(radius_scale*hmin))): more than 1024 finest '
-    'cells per axis are not representable; the generator stays below',
+    '1+3*ceil(log2(extent/(radius_scale*hmin))): more than 512 cells of the '
+    'smallest h per axis are not representable (it then crashes or drops '
+    'neighbours instead of raising); treated like the other capacity '
+    'limits, the generator stays below 480',
     'StratifiedHashNNPS scans (2*ceil(H*h_dst/h_src_level)+1)^3 boxes per '
-    'query; to bound run time the generator keeps H*hmax/hmin <= 24 for '
-    'this class (larger ratios are the open finding on its cost/crash)',
+    'query; to bound run time the generator keeps H*hmax/hmin <= 24 (less '
+    'for cases with many queries) for this class; larger ratios are the '
+    'open finding on its cost/crash',
     'a child that makes no progress for %d s is recorded as a hang '
     '(harness guard only)' % 90,
 ]
@@ -293,8 +296,9 @@ def fine_cap(cls, dim):
     within the harness memory budget."""
     if cls == 'StratifiedSFCNNPS':
         # its keys use `1 << (1 + 3*ceil(log2(extent/(rs*hmin))))` in 32-bit
-        # arithmetic: at most 1024 finest cells per axis are representable
-        return {1: 1000.0, 2: 1000.0, 3: 100.0}[dim]
+        # arithmetic: at most 512 finest cells per axis are representable
+        # (513 cells: wrong neighbour lists or a crash, measured)
+        return {1: 480.0, 2: 480.0, 3: 100.0}[dim]
     if cls in DENSE:
         return {1: 4096.0, 2: 1400.0, 3: 100.0}[dim]
     return 1e9
@@ -321,10 +325,12 @@ def extent_ok(cls, knobs, dim, E, c0, rs, hmax_lb, hmin_lb):
     return fine <= fine_cap(cls, dim)
 
 
-def cost_ok(knobs, hmax_ub, hmin_lb):
+def cost_ok(knobs, hmax_ub, hmin_lb, nq=1.0):
     """StratifiedHashNNPS scans (2*ceil(H*h_dst/h_level)+1)^3 boxes per
-    query; keep that below about 10^5."""
-    return knobs.get('H', 1) * hmax_ub / hmin_lb <= 24.0
+    query; keep boxes*queries of a case below about 5*10^7 (nq = estimated
+    number of queries) and the ratio below 24 in any case."""
+    lim = min(24.0, ((5e7 / max(nq, 1.0)) ** (1.0 / 3.0) - 1.0) / 2.0)
+    return knobs.get('H', 1) * hmax_ub / hmin_lb <= max(lim, 1.0)
 
 
 @st.composite
@@ -480,8 +486,10 @@ def materialize(sp):
         ns.append(0 if f == 'empty' else 1 if f == 'single' else a['n'])
     hs = [_hvals(sp, a, n, 0) for a, n in zip(sp['arrays'], ns)]
     allh = [v for h in hs for v in h]
+    nq = float(sum(ns) + 16 * len(sp['steps'])) * len(ns) * 2 * \
+        (len(sp['steps']) + 1)
     if cls == 'StratifiedHashNNPS' and allh and not cost_ok(
-            knobs, max(allh), min(allh)):
+            knobs, max(allh), min(allh), nq):
         # bounded query cost for this class (see ASSUMPTIONS)
         sp = dict(sp, hmode='const')
         hs = [_hvals(sp, a, n, 0) for a, n in zip(sp['arrays'], ns)]
@@ -542,17 +550,20 @@ def materialize(sp):
     bnd = [{'n': n, 'mxl': max(h) if h else 0.0, 'mxu': max(h) if h else 0.0,
             'mnl': min(h) if h else 0.0} for n, h in zip(ns, hs)]
 
+    drift = [0.0]      # relative moves accumulate: widen the box
+
     def fits(bs):
         if sp.get('huge'):
             return True
         act = [b for b in bs if b['n'] > 0]
         if not act:
             return True
+        Ed = [e + drift[0] for e in E]
         if cls == 'StratifiedHashNNPS' and not cost_ok(
                 knobs, max(b['mxu'] for b in act),
-                min(b['mnl'] for b in act)):
+                min(b['mnl'] for b in act), nq):
             return False
-        return extent_ok(cls, knobs, dim, E, c0, rs,
+        return extent_ok(cls, knobs, dim, Ed, c0, rs,
                          max(b['mxl'] for b in act),
                          min(b['mnl'] for b in act))
 
@@ -612,6 +623,11 @@ def materialize(sp):
             op = 'jitter' if n > 0 else 'none'
         elif step is not None:
             bnd = nb
+        if step is None and op == 'jitter':
+            drift[0] += 0.4
+            if not fits(bnd):
+                drift[0] -= 0.4
+                op = 'teleport'
         if step is None and op == 'jitter':
             idx = _subset(n, st_['k'], g[0], s[0])
             d = [[((_u(i0 + i, g[k], s[k]) - 0.5) * 0.4 * c0 if k < dim
